@@ -27,8 +27,8 @@ def plan(tier, seed):
         jobs.append({"variant": "c" if s % 2 else "py", "part": "pairs", "shard": s // 2, "nshards": n // 2, "params": {}})
     nr = 8 if thorough else 4
     for s in range(nr):
-        jobs.append({"variant": "c" if s % 2 else "py", "part": "runs", "shard": s, "nshards": nr, "params": {"n": 80000 if thorough else 10000}})
-        jobs.append({"variant": "c" if s % 2 else "py", "part": "readback", "shard": s, "nshards": nr, "params": {"n": 60000 if thorough else 8000}})
+        jobs.append({"variant": "c" if s % 2 else "py", "part": "runs", "shard": s, "nshards": nr, "params": {"n": 300000 if thorough else 10000}})
+        jobs.append({"variant": "c" if s % 2 else "py", "part": "readback", "shard": s, "nshards": nr, "params": {"n": 200000 if thorough else 8000}})
     return jobs
 
 
